@@ -10,6 +10,36 @@ import (
 
 type callCont func(st *State, res Val)
 
+func unpack(res Val) []Val {
+	if t, ok := res.(Tuple); ok {
+		return t
+	}
+	if res == nil {
+		return nil
+	}
+	return []Val{res}
+}
+
+// traceName: "pkg.Func" for functions, "Type.Method" for methods (no pointer star).
+func traceName(fn *ssa.Function) string {
+	if fn.Signature.Recv() != nil {
+		rt := fn.Signature.Recv().Type()
+		if p, ok := rt.(*types.Pointer); ok {
+			rt = p.Elem()
+		}
+		s := types.TypeString(rt, func(*types.Package) string { return "" })
+		return s + "." + fn.Name()
+	}
+	f := fn
+	if fn.Origin() != nil {
+		f = fn.Origin()
+	}
+	if f.Pkg != nil {
+		return f.Pkg.Pkg.Name() + "." + f.Name()
+	}
+	return f.Name()
+}
+
 func packResults(res []Val) Val {
 	switch len(res) {
 	case 0:
@@ -100,7 +130,7 @@ func (x *Exec) invoke(st *State, fr *Frame, in ssa.Instruction, cc *ssa.CallComm
 		return
 	}
 	// unknown dynamic type: interface contract or havoc
-	name := "(" + types.TypeString(cc.Value.Type(), func(p *types.Package) string { return p.Name() }) + ")." + cc.Method.Name()
+	name := types.TypeString(cc.Value.Type(), func(p *types.Package) string { return "" }) + "." + cc.Method.Name()
 	if m := x.ifaceModel(name); m != nil {
 		m(x, st, fr, in, cc, recv, args, k)
 		return
@@ -125,7 +155,11 @@ func (x *Exec) callStatic(st *State, fr *Frame, in ssa.Instruction, fn *ssa.Func
 		full = fn.Origin().String()
 	}
 	if m := x.model(full); m != nil {
-		m(x, st, fr, in, fn, args, k)
+		m(x, st, fr, in, fn, args, func(st2 *State, res Val) {
+			x.seqCtr++
+			st2.trace = append(st2.trace, &CallEvent{Callee: traceName(fn), Args: args, Res: unpack(res), Seq: x.seqCtr})
+			k(st2, res)
+		})
 		return
 	}
 	c := x.contractFor(fn)
@@ -136,7 +170,10 @@ func (x *Exec) callStatic(st *State, fr *Frame, in ssa.Instruction, fn *ssa.Func
 	}
 	if fn.Blocks == nil {
 		x.trusted["external function "+full+": results unconstrained, no effect on tracked memory"] = true
-		k(st, x.havocResults(st, "r_"+sanitize(fn.Name()), fn.Signature))
+		res := x.havocResults(st, "r_"+sanitize(fn.Name()), fn.Signature)
+		x.seqCtr++
+		st.trace = append(st.trace, &CallEvent{Callee: traceName(fn), Args: args, Res: unpack(res), Seq: x.seqCtr})
+		k(st, res)
 		return
 	}
 	if fr != nil && fr.depth >= x.inlineMax {
@@ -278,10 +315,13 @@ func (x *Exec) applyContract(st *State, fr *Frame, in ssa.Instruction, fn *ssa.F
 		if cl.Kind != "ensures" || !clauseActive(cl, x.active) {
 			continue
 		}
+		if mentionsTrace(cl.E) {
+			continue // speaks about the callee's own call trace: meaningless to the caller
+		}
 		x.assume(st, env.evalBool(cl.E))
 	}
 	x.seqCtr++
-	st.trace = append(st.trace, &CallEvent{Callee: funcKey(fn), Args: args, Res: res, Seq: x.seqCtr})
+	st.trace = append(st.trace, &CallEvent{Callee: traceName(fn), Args: args, Res: res, Seq: x.seqCtr})
 	if c.Trusted {
 		x.trusted["contract of "+funcFull(fn)+" is assumed (trusted)"] = true
 	}
